@@ -2,12 +2,12 @@ package lens
 
 import (
 	"bytes"
-	"sort"
-	"strings"
 	"context"
 	"encoding/json"
 	"fmt"
 	"math/rand/v2"
+	"sort"
+	"strings"
 
 	"github.com/notaryproject/notation-go"
 	"github.com/notaryproject/notation-go/signer"
